@@ -37,3 +37,10 @@ CHECKS = {
         "not_covered": "internal/envelope server/client and multiplexing glue are exercised by the harness only where listed in DESIGN.md",
     },
 }
+
+
+# Per-property configuration dropped in bin/checks.d/<Cxx>.json (same keys as above).
+import glob as _glob, json as _json, os as _os
+for _p in sorted(_glob.glob(_os.path.join(_os.path.dirname(_os.path.abspath(__file__)), "checks.d", "*.json"))):
+    _cfg = _json.load(open(_p))
+    CHECKS[_cfg.get("property", _os.path.basename(_p)[:-5])] = _cfg
